@@ -40,6 +40,7 @@ def _dominates(m, K, batch, tier="quick"):
             return z3.And(*cs)
         t.prove_paths("result_iff_all_facet_inequalities", paths, goal)
         t.frame_unchanged("frame:inputs-not-written", paths, ["a", "b"])
+        t.agree(paths)
         t.implicit()
     return _t
 
